@@ -50,8 +50,14 @@ def pipeline(tree, printed='P', capture=None):
 
     Everything between (stage order, option gating, taint handling, preserve lists) is the real code.
     """
+    real_parse = astc.parse
+
     def fake_parse(*a, **k):
-        return tree
+        # minify('') is the entry point: the empty placeholder source stands for the pre-built tree; any other text
+        # (e.g. constant folding re-parsing its candidate) goes to the real parser
+        if a and isinstance(a[0], str) and a[0] == '':
+            return tree
+        return real_parse(*a, **k)
 
     def fake_unparse(module):
         if capture is not None:
